@@ -746,6 +746,74 @@ def _n9(tree: ast.AST):
                 b[i] = ast.copy_location(ast.If(test=ast.copy_location(call, st), body=S, orelse=[]), st)
 
 
+def _neg_test(t: ast.AST) -> ast.AST:
+    if isinstance(t, ast.UnaryOp) and isinstance(t.op, ast.Not):
+        return t.operand
+    neg = {ast.Eq: ast.NotEq, ast.NotEq: ast.Eq, ast.Is: ast.IsNot, ast.IsNot: ast.Is, ast.In: ast.NotIn, ast.NotIn: ast.In}
+    if isinstance(t, ast.Compare) and len(t.ops) == 1 and type(t.ops[0]) in neg:
+        return ast.copy_location(ast.Compare(left=t.left, ops=[neg[type(t.ops[0])]()], comparators=t.comparators), t)
+    return ast.copy_location(ast.UnaryOp(op=ast.Not(), operand=t), t)
+
+
+def _n16(tree: ast.AST):
+    """N16  memo idiom:   if K not in D: D[K] = V        ->   if K in D: T = D[K]
+                          T = D[K]                            else:      T = D.setdefault(K, V)
+    (K, D plain names; the statement pair is adjacent; T any store target not mentioning K or D)"""
+    for node in ast.walk(tree):
+        for field, b in _blocks(node):
+            i = 0
+            while i + 1 < len(b):
+                st, nx = b[i], b[i + 1]
+                if isinstance(st, ast.If) and not st.orelse and len(st.body) == 1 and isinstance(st.test, ast.Compare) and len(st.test.ops) == 1 \
+                        and isinstance(st.test.ops[0], ast.NotIn) and isinstance(st.test.left, ast.Name) and isinstance(st.test.comparators[0], ast.Name):
+                    K, D = st.test.left.id, st.test.comparators[0].id
+                    a = st.body[0]
+                    if isinstance(a, ast.Assign) and len(a.targets) == 1 and ast.unparse(a.targets[0]) == '%s[%s]' % (D, K) \
+                            and isinstance(nx, ast.Assign) and len(nx.targets) == 1 and ast.unparse(nx.value) == '%s[%s]' % (D, K) \
+                            and not any(isinstance(x, ast.Name) and x.id in (K, D) for x in ast.walk(nx.targets[0])):
+                        T1, T2 = nx.targets[0], _copy.deepcopy(nx.targets[0])
+                        look = ast.copy_location(ast.Assign(targets=[T1], value=nx.value), nx)
+                        sd = ast.Call(func=ast.Attribute(value=ast.Name(id=D, ctx=ast.Load()), attr='setdefault', ctx=ast.Load()),
+                                      args=[ast.Name(id=K, ctx=ast.Load()), a.value], keywords=[])
+                        make = ast.copy_location(ast.Assign(targets=[T2], value=ast.copy_location(sd, a)), a)
+                        test = ast.copy_location(ast.Compare(left=st.test.left, ops=[ast.In()], comparators=st.test.comparators), st.test)
+                        b[i:i + 2] = [ast.fix_missing_locations(ast.copy_location(ast.If(test=test, body=[look], orelse=[make]), st))]
+                        continue
+                i += 1
+
+
+def _n15(tree: ast.AST):
+    """N15a  for T in IT: (if C: break)  else: S...        ->  if all(not C for T in IT): S...
+       N15b  for T in IT: (if C: return False); return True   ->  return all(not C for T in IT)
+             for T in IT: (if C: return True);  return False  ->  return any(C for T in IT)
+    (the loop body is exactly the one if; evaluation order and short-circuiting are those of the loop)"""
+    def quant(name: str, test: ast.AST, st: ast.For) -> ast.Call:
+        gen = ast.GeneratorExp(elt=test, generators=[ast.comprehension(target=st.target, iter=st.iter, ifs=[], is_async=0)])
+        return ast.copy_location(ast.Call(func=ast.Name(id=name, ctx=ast.Load()), args=[gen], keywords=[]), st)
+    for node in ast.walk(tree):
+        for field, b in _blocks(node):
+            i = 0
+            while i < len(b):
+                st = b[i]
+                if isinstance(st, ast.For) and len(st.body) == 1 and isinstance(st.body[0], ast.If) and not st.body[0].orelse and len(st.body[0].body) == 1:
+                    inner = st.body[0]
+                    act = inner.body[0]
+                    tnames = {x.id for x in ast.walk(st.target) if isinstance(x, ast.Name)}
+                    if isinstance(act, ast.Break) and st.orelse:
+                        if not any(isinstance(x, ast.Name) and x.id in tnames for s_ in st.orelse for x in ast.walk(s_)):
+                            b[i] = ast.copy_location(ast.If(test=quant('all', _neg_test(inner.test), st), body=st.orelse, orelse=[]), st)
+                    elif isinstance(act, ast.Return) and not st.orelse and isinstance(act.value, ast.Constant) and isinstance(act.value.value, bool) \
+                            and i + 1 < len(b) and isinstance(b[i + 1], ast.Return) and isinstance(b[i + 1].value, ast.Constant) \
+                            and isinstance(b[i + 1].value.value, bool) and b[i + 1].value.value is (not act.value.value):
+                        if act.value.value is False:
+                            new = ast.Return(value=quant('all', _neg_test(inner.test), st))
+                        else:
+                            new = ast.Return(value=quant('any', inner.test, st))
+                        b[i] = ast.copy_location(new, st)
+                        del b[i + 1]
+                i += 1
+
+
 _in_test_position: Dict[int, bool] = {}
 
 
@@ -808,6 +876,8 @@ def _n11_n12(tree: ast.AST):
 def normalise_local_more(tree: ast.AST):
     _n3y(tree)
     _n8(tree)
+    _n16(tree)
+    _n15(tree)
     _n9(tree)
     _n5(tree)
     _n4(tree)
@@ -1022,8 +1092,13 @@ def _helper_shape(fn: ast.FunctionDef):
             is_gen = True
         if isinstance(x, (ast.Await, ast.Global, ast.Nonlocal)):
             return None
-        if x is not fn and isinstance(x, (ast.FunctionDef, ast.AsyncFunctionDef, ast.ClassDef, ast.Lambda)):
+        if x is not fn and isinstance(x, (ast.FunctionDef, ast.AsyncFunctionDef, ast.ClassDef)):
             return None
+        if isinstance(x, ast.Lambda):
+            # a closed lambda (reads nothing but its own parameters) moves with the code it is in
+            own = {a.arg for a in list(x.args.posonlyargs) + list(x.args.args) + list(x.args.kwonlyargs)}
+            if x.args.vararg or x.args.kwarg or x.args.defaults or any(isinstance(y, ast.Name) and y.id not in own for y in ast.walk(x.body)):
+                return None
     rets = [x for x in ast.walk(fn) if isinstance(x, ast.Return)]
     if is_gen:
         # a generator helper is looked through where it is delegated to (`yield from helper(...)`): its statements, yields included,
@@ -1038,6 +1113,13 @@ def _helper_shape(fn: ast.FunctionDef):
         return ('stmts', body, None)
     if len(rets) == 1 and rets[0] is body[-1]:
         return ('stmts', body[:-1], rets[0].value)
+    # statements, then a pure choice between returns (`if c: return A` / `return B`)
+    for k in range(1, len(body)):
+        if any(isinstance(x, ast.Return) for s_ in body[:k] for x in ast.walk(s_)):
+            break
+        e = _as_expr(body[k:])
+        if e is not None:
+            return ('stmts', body[:k], e)
     return None
 
 
